@@ -83,11 +83,13 @@ Example smoke : ccase_ok {| k_n := 2; k_m := 1; k_d := 1;
   k_calls := [Some true; Some false]; k_subs := [(true, 1)]; k_cbs := [1] |} = true.
 Proof. vm_compute. reflexivity. Qed.
 
-(* the loss seen first by the endpoint's own Write: subscription 0 is full (one event in the hands of
-   its goroutine, 100 queued), a frame of type Call for it arrives, dispatch answers "consumer
-   blocked" and that Write fails (its result is discarded: part of LDispatch), then the reads fail *)
+(* the loss seen first by the endpoint's own Write: subscription 0 is full (one event read, one in
+   the hands of its goroutine, 99 and a frame of type Call queued), another frame of type Call for
+   it arrives, dispatch answers "consumer blocked" and that Write fails (its result is discarded:
+   part of LDispatch), then the reads fail *)
 Example smoke_blocked : ccase_ok {| k_n := 1; k_m := 1; k_d := 1;
-  k_trace := [LOnDisc 0; LSubscribe 0; LCallMake 0; LCallSend 0; LPeerMsg (MFor (OSub 0) TEvent); LDispatch; LSubTake 0]
-             ++ fillsub 0 100 ++ [LPeerMsg (MFor (OSub 0) TOther); LConnDie; LDispatch; LReadFail];
+  k_trace := [LOnDisc 0; LSubscribe 0; LCallMake 0; LCallSend 0; LPeerMsg (MFor (OSub 0) TEvent); LDispatch; LSubTake 0; LSubRead 0]
+             ++ fillsub 0 100 ++ [LSubTake 0; LPeerMsg (MFor (OSub 0) TOther); LDispatch;
+                                  LPeerMsg (MFor (OSub 0) TOther); LConnDie; LDispatch; LReadFail];
   k_calls := [Some false]; k_subs := [(true, 101)]; k_cbs := [1] |} = true.
 Proof. vm_compute. reflexivity. Qed.
